@@ -6,6 +6,12 @@ ENGINES = [
 ]
 NOT_BUILT_REASON = {}
 META = {
+    "C11": {
+        "engine": "vkit (E4 + E2) + venv (E3)",
+        "technique": "explicit-state search over credential/issuer operation histories against an accumulator-history model; exhaustive alteration/transplant enumeration of the non-revocation part; environment-answer deviations of every random draw",
+        "text": "Every sequence of <=4 (thorough 6) operations from {prepare cache, revoke other, revoke self, update witness, refresh time, prove+verify} is replayed on a fresh issuer world and credential and compared with the model: honest proofs from a valid witness verify (16 verifications each) and report exactly the index, time and Nu of the accumulator they were made against, also after a prepared commitment was refreshed. Every single-leaf alteration and transplant of the non-revocation part and proofs from doctored witnesses must be rejected. Every random draw of an honest proof is forced to min/max/short.",
+        "note": "Map-iteration-order dependent verdicts are sampled 16x per proof (the only residual probability in the framework). 2048-bit keys only in the environment part (thorough).",
+    },
     "C10": {
         "engine": "vkit (E2)",
         "technique": "exhaustive single (thorough: pairwise) corruption enumeration of update messages x transport x operation, judged by an independent chain/signature validator",
